@@ -37,6 +37,31 @@ def seq_jobs(target, nq, nt, asan_scale=0.4, tsan_scale=0.15, threads=5, quick_s
     return jobs
 
 
+def set_jobs(targets, nq, nt, quick_scale=1.0, special=None, builds_quick=('dbg', 'asan'), asan_scale=0.3, timeout_q=1200, run_special=True):
+    """targets: list of set harness binaries. special: {target: [(filter, nshards)]} = crash/hang-prone variants run in processes of their own
+    (a known finding that ends the process must not cost the results of other variants)."""
+    def jobs(tier, seed):
+        out = []
+        builds = builds_quick if tier == 'quick' else ('dbg', 'rel', 'asan', 'tsan')
+        for t in targets:
+            sp = (special or {}).get(t, [])
+            excl = ';'.join('!' + f for (f, _) in sp)
+            for b in builds:
+                sc = {'dbg': 1.0, 'rel': 1.0, 'asan': asan_scale, 'tsan': 0.12}[b] * (quick_scale if tier == 'quick' else 1.0)
+                n = nq if tier == 'quick' else nt
+                tmo = timeout_q if tier == 'quick' else 7200
+                extra = ['--filter', excl] if excl else None
+                out += shards(t, b, n, 5, tmo, extra=extra, scale=sc)
+                if run_special and b in ('dbg', 'asan'):
+                    for (f, k) in sp:
+                        out += shards(t, b, k, 5, tmo, extra=['--filter', f], scale=sc * 0.5)
+        return out
+    return jobs
+
+
+SET_SPECIAL = {'set_tree': [('+extract_minmax', 3), ('+caller_owned_insert', 2)]}
+
+
 def jobs_smr_hp(tier, seed):
     # the harness selects HP configurations for C01, DHP for C02, both for C03 (from --prop)
     if tier == 'quick':
@@ -80,6 +105,16 @@ PROPS = {
         'mechanisms_required': ['ms.onBadTail', 'ms.onEnqueueRace', 'ms.onDequeueRace', 'basket.onTryAddBasket', 'basket.onAddBasket',
                                 'optimistic.onFixList', 'fc.onCombining', 'fc.onCollide', 'fc.onPassiveToCombiner'],
     },
+    'C13': {'jobs': set_jobs(['set_list'], 5, 15),
+            'mechanisms_required': ['michael_list.onHelpingSuccess', 'michael_list.onInsertRetry', 'lazy_list.onValidationFailed', 'iterable_list.onReuseNode', 'iterable_list.onNodeMarkFailed']},
+    'C14': {'jobs': set_jobs(['set_hash'], 5, 19),
+            'mechanisms_required': ['split_list.onNewBucket', 'split_list.onRecursiveInitBucket', 'split_list.onBucketInitContenton', 'feldman.onExpandNodeSuccess', 'feldman.onSlotConverting']},
+    'C15': {'jobs': set_jobs(['set_tree'], 5, 16, special=SET_SPECIAL),
+            'mechanisms_required': ['skip_list.onEraseWhileFind', 'skip_list.onExtractMinSuccess', 'skip_list.onExtractMaxSuccess', 'ellen.onHelpInsert', 'ellen.onHelpDelete',
+                                    'bronson.onRotateRight', 'bronson.onRotateLeft']},
+    'C16': {'jobs': set_jobs(['set_lock'], 4, 17),
+            'mechanisms_required': ['cuckoo.onResizeCall', 'cuckoo.onRelocateRound', 'cuckoo.onInsertResize']},
+    'C18': {'jobs': set_jobs(['set_list', 'set_hash', 'set_tree', 'set_lock'], 3, 8, quick_scale=0.4, special=SET_SPECIAL, builds_quick=('dbg',), run_special=False)},
     'C21': {'jobs': sync_jobs('freelist', ['dbg', 'asan', 'tsan'], ['dbg', 'rel', 'asan', 'tsan'])},
     'C22': {'jobs': sync_jobs('locks', ['dbg', 'asan', 'tsan'], ['dbg', 'rel', 'asan', 'tsan'], nq=3, nt=7)},
     'C24': {'jobs': sync_jobs('pools', ['dbg', 'asan'], ['dbg', 'rel', 'asan'], nq=2, nt=4)},
